@@ -856,7 +856,11 @@ def run(tier, seed, driver):
                 "connection_made; 4 start states x 13 opposing thread sets; every maximal interleaving at "
                 "shared-access granularity (three-thread sets: first 250/2500 in DFS order plus 60/1500 random "
                 "schedules when there are more; all others exhaustive and counted against the model); queue: all "
-                "schedules up to length 6/8 for (2,1) and (1,1,1) producers + random up to 4 producers; "
+                "schedules up to length 6/8 for (2,1) and (1,1,1) producers + random up to 4 producers; oracle-only sweeps: "
+                "seven OSError subclasses raised by write() on a closed connection and on an open one after a partial "
+                "write; the real SyncTransport.connect as reconnect callback (thread creation faked); Transport.send "
+                "over the real TCPTransport (socketpair) and pyserial ReaderThread (loop://) usable / closed / "
+                "peer-closed / peer-reset; queue schedules with a thread calling stop(); "
                 "non-trivial = distinct (scenario, schedule)")
     if driver is not None:
         try:
